@@ -20,7 +20,7 @@ ALPHABET = ["append", "append", "multi", "delete", "delete_append", "readd", "ex
             "commit_tx", "rollback_tx", "age", "gc", "gc0", "gc0", "fail_commit", "reopen"]
 
 LOCAL_SPELLINGS = ["abs", "rel", "dotrel", "updown", "trailing", "doubled", "symlink_root", "symlink_parent",
-                   "rel_data", "rel_metadata", "rel_d", "rel_m", "rel_dat", "abs_data", "rel_nested_data"]
+                   "rel_data", "rel_metadata", "rel_d", "rel_m", "rel_dat", "abs_data", "rel_nested_data", "fsroot_data"]
 S3_SPELLINGS = [("wh/t", ""), ("/wh/t/", ""), ("data", ""), ("t", "envp/x"), ("metadata", "env"), ("d", "")]
 
 
@@ -47,6 +47,10 @@ def spell_local(kind: str, d: str) -> str:
         os.makedirs(os.path.join(d, "realparent"), exist_ok=True)
         os.symlink(os.path.join(d, "realparent"), os.path.join(d, "lnk"))
         return os.path.join(d, "lnk", "t")
+    if kind == "fsroot_data":
+        # a table whose absolute location is literally "/data" (first path component of every
+        # table-relative data path); only attempted when that directory does not exist yet
+        return "/data"
     if kind.startswith("rel_nested_"):
         os.makedirs(os.path.join(d, "x"), exist_ok=True)
         return "x/" + kind[len("rel_nested_"):]
@@ -97,6 +101,28 @@ class C05(Check):
                     os.chdir(d)
                     tp = spell_local(case["spelling"], d)
                     root = os.path.realpath(os.path.join(d, tp))
+                    if case["spelling"] == "fsroot_data":
+                        import fcntl, shutil
+                        lockf = open("/tmp/verif-fsroot-data.lock", "w")
+                        fcntl.flock(lockf, fcntl.LOCK_EX)          # one case at a time owns /data
+                        try:
+                            if os.path.exists("/data"):
+                                res.count("fsroot_data_skipped")
+                                return
+                            try:
+                                os.makedirs("/data")
+                            except OSError:
+                                res.count("fsroot_data_skipped")
+                                return
+                            try:
+                                h = history.History("/data", rng, table_path="/data", ip=ip)
+                                self._drive(h, ops, res, case, rng)
+                                res.count("fsroot_data_histories")
+                            finally:
+                                shutil.rmtree("/data", ignore_errors=True)
+                        finally:
+                            lockf.close()
+                        return
                     h = history.History(root, rng, table_path=tp, ip=ip)
                     self._drive(h, ops, res, case, rng)
                 else:
